@@ -5,6 +5,7 @@
 #include <Poco/Net/StreamSocket.h>
 #include <deque>
 #include <memory>
+#include <set>
 
 namespace sn {
 
